@@ -93,9 +93,8 @@ struct c2_ctx {
     uint64_t hash;
     uint32_t cl;
     int max_alloc;
-    /* executor hooks for planar handles */
+    /* executor hook: complete read-back of a picture / sound handle */
     void (*planar_check)(struct c2_ctx *c, int hi, const char *after);
-    void (*planar_free)(struct c2_ctx *c, int hi);
     char leakmsg[200];
 };
 
@@ -194,7 +193,6 @@ static inline void c2_release(struct c2_ctx *c, int hi)
 {
     struct c2_hnd *h = &c->h[hi];
     if (h->kind == C2_NONE) return;
-    if (h->kind == C2_PLANAR && c->planar_free) c->planar_free(c, hi);
     if (h->u) ubuf_free(h->u);
     h->u = NULL; h->kind = C2_NONE; h->n = 0; h->may = h->multi = 0; h->nseg = 0; h->nb = 0;
 }
